@@ -107,6 +107,7 @@ func c09FkClasses(src, field, dst, set, a, sib, b, b2, ghostSrc, ghostDst string
 	cs := []string{
 		"ED " + dst + " " + w(b) + " " + set + " " + w(a),          // back-reference missing
 		"EF " + src + " " + w(a) + " " + field + " ~",             // reference nil: back-reference stale
+		"EF " + src + " " + w(a) + " " + field + " -",             // reference "" (no reference either): back-reference stale
 		"EF " + src + " " + w(a) + " " + field + " " + w(ghostDst), // dangling reference
 		"EA " + dst + " " + w(b) + " " + set + " " + w(ghostSrc),   // back-reference of a missing referrer
 	}
@@ -157,6 +158,10 @@ func c09EntityClasses(a, o, oName, oAlias, role, link, minion string) []string {
 		"EF things " + w(a) + " dep " + w(c09GhostB),
 		"EF things " + w(a) + " req " + w(c09GhostB),
 		"EF things " + w(a) + " req ~",
+		"EF things " + w(a) + " req -",
+		"EF things " + w(a) + " owner -",
+		"EF things " + w(a) + " dep -",
+		"EF things " + w(a) + " boss -",
 		"EF things " + w(a) + " boss " + w(c09GhostA),
 		"EF things " + w(a) + " boss " + w(a), // refers to itself
 		"EA things " + w(a) + " roles " + w("r3"),
@@ -318,9 +323,56 @@ func c09GenPopulations(tier string, r *rng, out *bufio.Writer) {
 	}
 }
 
+// c09GenEmptyStrings: the EMPTY STRING in every nullable indexed / referencing field of a HEALTHY database.  create and
+// update accept "" as "no value / no reference" (GetTypeAndValue yields a nil value for the one-byte encoding), so the
+// checker must: every subset of {alias, owner, dep, boss, tag, nick of a2; label of b2} set to "" through the API, as a
+// healthy database (must be reported clean, a fix run must not touch it), and with a back-reference that claims the
+// thing although its reference is "" (stale, to be removed).  Empty list elements and links to the id "" are refused by
+// the API (the op fails and is ignored); they are tried as well.
+func c09GenEmptyStrings(tier string, r *rng, out *bufio.Writer) {
+	e := func(bit int, pat int, v string) string {
+		if pat>>bit&1 == 1 {
+			return ""
+		}
+		return v
+	}
+	opt := func(v string) string { // "" stays the empty string here (wire "-"), not nil
+		return toWire(v)
+	}
+	for pat := 0; pat < 128; pat++ {
+		thing := func(kind string) string {
+			return strings.Join([]string{kind, toWire("a2"), toWire("n2"), opt(e(0, pat, "x2")), c09List([]string{"r1"}),
+				opt(e(1, pat, "b1")), toWire("b1"), opt(e(2, pat, "b2")), toWire("b1"), opt(e(3, pat, "a1"))}, " ")
+		}
+		h := []string{
+			"cB " + toWire("b1") + " " + toWire("l1"),
+			"cB " + toWire("b2") + " " + opt(e(6, pat, "l2")),
+			c09ThingOp("cA", "a1", "n1", "x1", c09List([]string{"r1"}), "b1", "b1", "b2", "b1", ""),
+			thing("cX") + " " + toWire("g2") + " " + opt(e(4, pat, "t2")) + " " + toWire("b1") + " " + c09List([]string{"c1"}),
+			thing("cP") + " " + toWire("k2") + " " + opt(e(5, pat, "q2")) + " " + c09List([]string{"m1"}),
+			"lA " + toWire("a2") + " " + c09List([]string{"b1"}),
+		}
+		if pat%16 == 5 {
+			// refused by the API: an empty role, a link to the id ""
+			h = append(h, c09ThingOp("uA", "a1", "n1", "x1", c09List([]string{"r1", ""}), "b1", "b1", "b2", "b1", ""),
+				"lA "+toWire("a1")+" "+c09List([]string{"b1", ""}))
+		}
+		c09EmitCase(out, "sep", h, nil)
+		if pat%8 == 3 {
+			c09EmitCase(out, "tx1", h, nil)
+			c09EmitCase(out, "tx1r", h, nil)
+		}
+		if tier == "thorough" || pat%4 == int(r.intn(4)) {
+			c09EmitCase(out, "sep", h, []string{"EA owners " + toWire("b1") + " things " + toWire("a2")})
+			c09EmitCase(out, "sep", h, []string{"EA things " + toWire("a1") + " minions " + toWire("a2"), "UD things.alias " + toWire("x2")})
+		}
+	}
+}
+
 func c09GenInteracting(tier string, r *rng, out *bufio.Writer) {
 	thorough := tier == "thorough"
 	c09GenPopulations(tier, r, out)
+	c09GenEmptyStrings(tier, r, out)
 	for _, t := range c09SharedTargets() {
 		cs := t.classes
 		n := len(cs)
